@@ -36,14 +36,14 @@ Print Assumptions C42_decode_total.
 
 (* ---- non-interference: each object of the shared world is the one-child automaton ---- *)
 (* For every trace with distinct pids and every object: its fields, the kernel's entry for its pid, its entry in
-   Subprocess._waiting, its pending _set_returncode calls and its part of the log are exactly those of the
+   Subprocess._waiting, its pending IOLoop calls (_set_returncode / late callbacks) and its part of the log are exactly those of the
    one-child specification `track` — whatever the other children, their exits, registrations and callbacks do. *)
 Theorem C42_objects_do_not_interfere : forall es sid c, wf es = true -> track sid es = Some c ->
   let w := run es in let p := s_pid (c_sub c) in
   nth_error (w_subs w) sid = Some (c_sub c) /\
   a_find p (w_kern w) = Some (kst_of (c_ph c)) /\
   a_find p (w_waiting w) = (if c_inw c then Some sid else None) /\
-  qstat sid (w_queue w) = q_of (c_ph c) /\
+  qfilter sid (w_queue w) = q_of sid c /\
   calls_of sid (w_log w) = c_calls c.
 Proof.
   intros es sid c W T. destruct (projection es W) as [_ [_ P]]. specialize (P sid). rewrite T in P.
@@ -51,17 +51,26 @@ Proof.
 Qed.
 Print Assumptions C42_objects_do_not_interfere.
 
-(* ---- at most once, only with the right status (every trace, every schedule) ---- *)
-(* In every reachable world each object has logged nothing (returncode None, all futures pending), or exactly one
-   callback invocation whose argument is decode(status of the child's FIRST exit) — the callback being one that
-   was registered on this object, its future (if it came from wait_for_exit) resolved by the rule, every other
-   future pending — or exactly one AssertionError when that status is stopped/continued-shaped. *)
-Theorem C42_reported_at_most_once_with_the_right_status : forall es sid p r,
+(* ---- only with the right status, no registration twice (every trace, every schedule) ---- *)
+(* In every reachable world each object has logged nothing (returncode None, all futures pending, nothing queued), or
+   exactly one AssertionError (stopped/continued-shaped status), or a non-empty list of callback invocations ALL of
+   which carry decode(status of the child's FIRST exit).  In that case the invocations made so far followed by the
+   late calls still queued on the IOLoop are, label by label and in order, a SUFFIX of the registrations made on this
+   object: the registration that was in place when _set_returncode ran, then every registration made afterwards.
+   Every resolved future holds the value / CalledProcessError prescribed by wait_for_exit's rule. *)
+Theorem C42_reported_with_the_right_status : forall es sid p r,
   wf es = true -> after_spawn sid es = Some (p, r) ->
   exists sb, nth_error (w_subs (run es)) sid = Some sb /\ s_pid sb = p /\
-             child_report sid p r (calls_of sid (w_log (run es))) sb.
+             child_report sid p r (calls_of sid (w_log (run es))) (w_queue (run es)) sb.
 Proof. exact at_most_once. Qed.
-Print Assumptions C42_reported_at_most_once_with_the_right_status.
+Print Assumptions C42_reported_with_the_right_status.
+
+(* consequently no registered callback ever runs twice (labels = identities of the registrations) *)
+Theorem C42_each_registration_fires_at_most_once : forall es sid p r,
+  wf es = true -> after_spawn sid es = Some (p, r) ->
+  NoDup (reg_labels sid r) -> NoDup (call_labels (calls_of sid (w_log (run es)))).
+Proof. exact each_registration_at_most_once. Qed.
+Print Assumptions C42_each_registration_fires_at_most_once.
 
 Theorem C42_nothing_reported_before_the_child_exits : forall es sid p r,
   wf es = true -> after_spawn sid es = Some (p, r) -> first_exit p r = None ->
@@ -73,8 +82,9 @@ Print Assumptions C42_nothing_reported_before_the_child_exits.
 (* (A) The object is registered and its child exits, in EITHER order, anywhere in r1 (interleaved with any other
    events: other children, earlier SIGCHLDs, loop turns, re-registrations); then a SIGCHLD is delivered (one
    delivery serves every child that died so far); then the IOLoop runs.  Then — whatever follows (r4) — the log of
-   this object is exactly one invocation, of a callback registered on it, with decode(st); returncode is set; the
-   future behind that callback holds the value / CalledProcessError by wait_for_exit's rule. *)
+   this object starts with the invocation of a callback registered on it, with decode(st); returncode is set; the
+   future behind that callback holds the value / CalledProcessError by wait_for_exit's rule.  (Anything after that
+   first entry comes from registrations made after the report: see C42_late_registration_fires.) *)
 Theorem C42_exactly_once_any_order : forall es0 p r1 r2 r3 r4 sid st,
   let r := r1 ++ r2 ++ r3 ++ r4 in
   let es := es0 ++ ESpawn p :: r in
@@ -103,14 +113,14 @@ Print Assumptions C42_single_registration.
 
 (* ---- wait_for_exit ---- *)
 (* Every future handed out by wait_for_exit is pending, or holds: the decoded status if it is 0 or raise_error is
-   off, CalledProcessError(status) otherwise — and then it is the future of the one callback that ran. *)
+   off, CalledProcessError(status) otherwise — and then its callback is in the log. *)
 Theorem C42_wait_for_exit_rule : forall es sid p r, wf es = true -> after_spawn sid es = Some (p, r) ->
   exists sb, nth_error (w_subs (run es)) sid = Some sb /\
   forall j l f, nth_error (s_futs sb) j = Some (l, f) ->
     f = FPending \/
     exists st rc re, first_exit p r = Some st /\ decode st = Some rc /\ In (EWait sid l re) r /\
                      f = (if negb (rc =? 0) && re then FError rc else FResult rc) /\
-                     calls_of sid (w_log (run es)) = [LCall sid l rc].
+                     In (LCall sid l rc) (calls_of sid (w_log (run es))).
 Proof. exact future_rule. Qed.
 Print Assumptions C42_wait_for_exit_rule.
 
@@ -127,26 +137,22 @@ Theorem C42_log_is_calls_and_asserts_only : forall es, wf es = true ->
 Proof. exact only_calls_and_asserts. Qed.
 Print Assumptions C42_log_is_calls_and_asserts_only.
 
-(* ---- boundary of the statement: registering again after the exit was reported never fires ---- *)
-(* Once _set_returncode ran for an object, nothing that happens later — further set_exit_callback / wait_for_exit
-   calls on it, SIGCHLDs, loop turns — adds to its log: a late callback is never invoked, a late future stays pending. *)
-Theorem C42_late_registration_never_fires : forall es sid p r st extra, wf (es ++ extra) = true ->
-  after_spawn sid es = Some (p, r) -> c_ph (fold_left (cstep sid) r (cinit p)) = PhReported st ->
-  calls_of sid (w_log (run (es ++ extra))) = calls_of sid (w_log (run es)).
-Proof. exact late_registration_never_fires. Qed.
-Print Assumptions C42_late_registration_never_fires.
-
-(* The STRICT reading "every registration on an exited child eventually fires" is refuted by the code as it is:
-   the second wait_for_exit below is made after the exit was reported; two further SIGCHLDs and loop turns later
-   its callback (label 1) has not run and its future is still pending; the object sits in _waiting for ever. *)
-Theorem C42_every_registration_fires_refuted :
-  exists es, (wf es = true) /\ (exit_status 0 es = Some 0) /\
-    (es = [ESpawn 5; EWait 0 0 false; EExit 5 0; ESigchld; ELoop] ++ [EWait 0 1 true; ESigchld; ELoop; ESigchld; ELoop]) /\
-    (w_log (run es) = [LCall 0 0 0]) /\
-    (option_map s_futs (nth_error (w_subs (run es)) 0) = Some [(0%nat, FResult 0); (1%nat, FPending)]) /\
-    (w_waiting (run es) = [(5, 0%nat)]).
-Proof. eexists. split; [|split; [|split; [reflexivity|]]]; vm_compute; repeat split. Qed.
-Print Assumptions C42_every_registration_fires_refuted.
+(* ---- a registration made AFTER the exit was reported fires too (fix 830934b in /repo) ---- *)
+(* The object's exit has been reported with a decodable status (phase Reported after es1); then set_exit_callback or
+   wait_for_exit is called on it (event e, label l); then the IOLoop runs once (somewhere in r2); then anything (r3).
+   Then the callback labelled l has run with decode(st) and, for wait_for_exit(raise_error = re), its future holds
+   the value / CalledProcessError by the rule.  Together with C42_each_registration_fires_at_most_once: exactly once.
+   (Before the fix this was refuted: the late callback never ran and the object stayed in _waiting for ever.) *)
+Theorem C42_late_registration_fires : forall es1 e r2 r3 sid p r1 st rc l,
+  let es := es1 ++ e :: r2 ++ r3 in
+  wf es = true -> after_spawn sid es1 = Some (p, r1) ->
+  c_ph (fold_left (cstep sid) r1 (cinit p)) = PhReported st -> decode st = Some rc ->
+  reg_label sid e = Some l -> In ELoop r2 ->
+  In (LCall sid l rc) (calls_of sid (w_log (run es))) /\
+  forall re, e = EWait sid l re ->
+    exists sb j, nth_error (w_subs (run es)) sid = Some sb /\ nth_error (s_futs sb) j = Some (l, resolve re rc).
+Proof. exact late_registration_fires. Qed.
+Print Assumptions C42_late_registration_fires.
 
 (* ---- the model satisfies the checker that is applied to the implementation's observables ---- *)
 Theorem C42_model_satisfies_checker : forall es, check_case es (run_case es) = true.
